@@ -850,6 +850,68 @@ func cmdC05Free(args []string) {
 		}
 		progs = keep
 	}
+	// the engine's own loaders, cold: a set over a LocalFilesystemLoader (without and with a base directory) whose very first
+	// fetches - FromCache, FromFile, a computed include from a string template - all happen at once, by relative name
+	if dir, err := os.MkdirTemp("", "pvh_c05_"); err == nil {
+		defer os.RemoveAll(dir)
+		os.WriteFile(dir+"/cold_a.tpl", []byte("A{{ sv }}"), 0o644)
+		os.WriteFile(dir+"/cold_b.tpl", []byte("B{% include \"cold_a.tpl\" %}"), 0o644)
+		if cwd, err := os.Getwd(); err == nil && os.Chdir(dir) == nil {
+			for round := 0; round < 12; round++ {
+				base := ""
+				if round%3 == 2 {
+					base = dir
+				}
+				loader, lerr := pongo2.NewLocalFileSystemLoader(base)
+				if lerr != nil {
+					break
+				}
+				set := pongo2.NewSet("cold", loader)
+				lazyT, _ := set.FromString("{% include lazyname %}")
+				var wg sync.WaitGroup
+				var mu sync.Mutex
+				outs := map[string]int{}
+				for g := 0; g < k; g++ {
+					wg.Add(1)
+					go func(g int) {
+						defer wg.Done()
+						var o outcome
+						switch g % 3 {
+						case 0:
+							o = protect(func() (string, error) {
+								t, e := set.FromCache("cold_a.tpl")
+								if e != nil {
+									return "", e
+								}
+								return t.Execute(pongo2.Context{"sv": "s"})
+							})
+						case 1:
+							o = protect(func() (string, error) {
+								t, e := set.FromFile("cold_b.tpl")
+								if e != nil {
+									return "", e
+								}
+								return t.Execute(pongo2.Context{"sv": "s"})
+							})
+						default:
+							o = execute(lazyT, pongo2.Context{"lazyname": "cold_a.tpl", "sv": "s"})
+						}
+						mu.Lock()
+						outs[fmt.Sprintf("%d:%s|%s|%s", g%3, o.Out, firstLine(o.Err), firstLine(o.Panic))]++
+						mu.Unlock()
+					}(g)
+				}
+				wg.Wait()
+				rep.Checked++
+				for key := range outs {
+					if key != "0:As||" && key != "1:BAs||" && key != "2:As||" {
+						rep.viol("concurrent first fetches through a LocalFilesystemLoader (base "+strconv.Quote(base)+"): a call returned "+key, map[string]interface{}{"cmd": "c05-free"})
+					}
+				}
+			}
+			os.Chdir(cwd)
+		}
+	}
 	for _, p := range progs {
 		files := map[string]string{"/lazy": "L{{ sv }}{% cycle 1 2 %}", "/main": p.Src}
 		for n, c := range p.Files {
